@@ -66,8 +66,18 @@ type Term struct {
 func (t *Term) IsConst() bool { return t.op == OpConst }
 
 // TermTable is per-worker (not thread safe).
+type tkey struct {
+	op         Op
+	w          uint8
+	a, b       int
+	val        uint64
+	name       string
+	a0, a1, a2 int
+}
+
 type TermTable struct {
 	tab   map[string]*Term
+	tab2  map[tkey]*Term
 	next  int
 	vars  []*Term          // declaration order
 	ufs   map[string]*Term // name -> representative application (for signature)
@@ -77,7 +87,7 @@ type TermTable struct {
 }
 
 func NewTermTable() *TermTable {
-	tt := &TermTable{tab: map[string]*Term{}, ufs: map[string]*Term{}}
+	tt := &TermTable{tab: map[string]*Term{}, tab2: map[tkey]*Term{}, ufs: map[string]*Term{}}
 	tt.tru = tt.mk(&Term{op: OpConst, w: 0, val: 1})
 	tt.fls = tt.mk(&Term{op: OpConst, w: 0, val: 0})
 	return tt
@@ -93,6 +103,25 @@ func (tt *TermTable) key(t *Term) string {
 }
 
 func (tt *TermTable) mk(t *Term) *Term {
+	if len(t.args) <= 3 {
+		k := tkey{op: t.op, w: t.w, a: t.a, b: t.b, val: t.val, name: t.name, a0: -1, a1: -1, a2: -1}
+		if len(t.args) > 0 {
+			k.a0 = t.args[0].id
+		}
+		if len(t.args) > 1 {
+			k.a1 = t.args[1].id
+		}
+		if len(t.args) > 2 {
+			k.a2 = t.args[2].id
+		}
+		if e, ok := tt.tab2[k]; ok {
+			return e
+		}
+		t.id = tt.next
+		tt.next++
+		tt.tab2[k] = t
+		return t
+	}
 	k := tt.key(t)
 	if e, ok := tt.tab[k]; ok {
 		return e
@@ -128,13 +157,11 @@ func (tt *TermTable) Bool(b bool) *Term {
 }
 
 func (tt *TermTable) Var(name string, w uint8) *Term {
-	k := &Term{op: OpVar, w: w, name: name}
-	key := tt.key(k)
-	if e, ok := tt.tab[key]; ok {
-		return e
+	n0 := tt.next
+	t := tt.mk(&Term{op: OpVar, w: w, name: name})
+	if t.id >= n0 {
+		tt.vars = append(tt.vars, t)
 	}
-	t := tt.mk(k)
-	tt.vars = append(tt.vars, t)
 	return t
 }
 
